@@ -24,6 +24,14 @@ def configs(rng, tier):
         for ch in (65536, 65537, 100000):
             cs.append({"kind": "actor", "lib": lib, "attr": gen_impl.actor_attr(lib, ch), "item": gen_impl.probe_impl(lib)["item"],
                        "want": [ch], "opts": [(None, ch)], "label": "actor lib=%s channel=%s" % (lib, ch), "big": True})
+    # spellings of the literal: the capacity is the literal's value whatever its radix, separators or suffix
+    for lib in gen_impl.LIBS:
+        for sp, ch in (("0x2", 2), ("0b11", 3), ("0o2", 2), ("3usize", 3), ("1_0", 10), ("2_usize", 2), ("0x0", 0), ("0_0", 0), ("0x1_0", 16)):
+            cs.append({"kind": "actor", "lib": lib, "attr": gen_impl.actor_attr(lib, sp), "item": gen_impl.probe_impl(lib)["item"],
+                       "want": [ch if ch else None], "opts": [(None, ch)], "label": "actor lib=%s channel=%s" % (lib, sp)})
+    for sp, ch in (("0x2", 2), ("0b11", 3)):
+        cs.append({"kind": "family", "lib": "std", "attr": 'channel = %s, actor(first_name = "U", channel = %s), actor(first_name = "V")' % (sp, "0o4"),
+                   "item": gen_impl.probe_impl("std")["item"], "want": [4, ch], "opts": [(ch, 4), (ch, None)], "label": "family lib=std channel=%s member channel=0o4" % sp})
     # families: inherited and overridden member capacity
     for lib in ("std", "tokio", "async_std"):
         for fam_ch in (None, 0, 2, 3):
